@@ -125,9 +125,9 @@ func (eng *Engine) lookupContract(callee *types.Func) (*Contract, *ContractSet, 
 }
 
 // effect-free allow-list: calls that are modelled as returning arbitrary values and changing nothing.
-var effectFreePkgs = []string{"go.uber.org/zap", "github.com/pinealctx/neptune/ulog", "google.golang.org/grpc/status", "google.golang.org/grpc/codes"}
+var effectFreePkgs = []string{"go.uber.org/zap", "github.com/pinealctx/neptune/ulog", "google.golang.org/grpc/codes"}
 var effectFreeFuncs = map[string]bool{
-	"fmt.Errorf": true, "fmt.Sprintf": true, "fmt.Sprint": true, "errors.New": true, "reflect.TypeOf": true,
+	"fmt.Sprintf": true, "fmt.Sprint": true, "reflect.TypeOf": true,
 	"strconv.FormatInt": true, "strconv.FormatUint": true, "strconv.Itoa": true,
 }
 
